@@ -6,31 +6,58 @@ From SP Require Import Stream.
 
 Definition hp (p : ppc) : nat := match p with POpening | PWriting _ | PExited | PAudited => 1 | _ => 0 end.
 Definition hc (q : cpc) : nat := match q with COpening | CReading | CExited | CAudited _ | CFinal => 1 | _ => 0 end.
-Definition c_opened (q : cpc) : bool := match q with CReading | CExited | CAudited _ | CFinal | CReleased | CDone => true | _ => false end.
+Definition c_opened (q : cpc) : bool := match q with CReading | CDraining | CExited | CAudited _ | CFinal | CReleased | CDone => true | _ => false end.
 Definition c_exited (q : cpc) : bool := match q with CExited | CAudited _ | CFinal | CReleased | CDone => true | _ => false end.
 Definition p_opened (p : ppc) : bool := match p with PWaitSlot | POpening => false | _ => true end.
 Definition p_exited (p : ppc) : bool := match p with PExited | PAudited | PReleased | PDone => true | _ => false end.
 
-Record LInv (s : st) : Prop := {
-  l_tok : tokens s = hp (pp s) + hc (cp s);
+(* what the pair holds of the shared slot tokens *)
+Definition held (s : st) : nat := hp (pp s) + hc (cp s).
+(* what it may hold at most: the producer's slot, and the consumer's unless the consumer is skipped *)
+Definition demand (c : cfg) : nat := if skip c then 1 else 2.
+
+(* the part of the invariant that does not mention the tokens *)
+Record LInvO (s : st) : Prop := {
   l_open : c_opened (cp s) = p_opened (pp s);
   l_closed : wclosed s = p_exited (pp s);
   l_cexit : c_exited (cp s) = true -> wclosed s = true
 }.
+Record LInv (s : st) : Prop := { l_tok : tokens s = held s; l_o : LInvO s }.
 
-Lemma init_linv c : LInv (init c).
+Lemma init_linvO c : LInvO (init c).
 Proof. constructor; simpl; auto; discriminate. Qed.
+Lemma init_linv c : LInv (init c).
+Proof. constructor; [reflexivity|apply init_linvO]. Qed.
 
-Lemma step_linv c s a s' : LInv s -> step c s a = Some s' -> LInv s'.
-Proof.
-  intros [I1 I2 I3 I4] H. unfold step in H.
-  destruct a; destruct (pp s) eqn:P; destruct (cp s) eqn:Q; simpl in *; try discriminate;
+Ltac step_cases H s :=
+  unfold step in H;
+  destruct (pp s) eqn:P; destruct (cp s) eqn:Q; simpl in *; try discriminate;
     repeat match type of H with
            | (if ?b then _ else _) = _ => destruct b eqn:?; try discriminate
            | match ?l with [] => _ | _ :: _ => _ end = _ => destruct l eqn:?; try discriminate
            end;
-    injection H as <-; constructor; simpl; rewrite ?P, ?Q; simpl; auto; try lia; try discriminate; try congruence;
+    injection H as <-.
+
+Lemma step_linvO c s a s' : LInvO s -> step c s a = Some s' -> LInvO s'.
+Proof.
+  intros [I2 I3 I4] H.
+  destruct a; step_cases H s; constructor; simpl; rewrite ?P, ?Q; simpl; auto; try discriminate; try congruence;
+    try (destruct (skip c); simpl; auto; try discriminate; fail);
     try (intros _; rewrite I3 in *; simpl in *; congruence).
+Qed.
+
+(* token accounting: a step changes the shared counter by exactly what the pair's holding changes *)
+Lemma step_tokens c s a s' : held s <= tokens s -> step c s a = Some s' -> tokens s' + held s = tokens s + held s'.
+Proof.
+  unfold held. intros G H.
+  destruct a; step_cases H s; simpl; rewrite ?P, ?Q; simpl; try lia;
+    try (destruct (skip c); simpl; lia).
+Qed.
+
+Lemma step_linv c s a s' : LInv s -> step c s a = Some s' -> LInv s'.
+Proof.
+  intros [T O] H. constructor; [|eapply step_linvO; eauto].
+  pose proof (step_tokens c s a s' ltac:(lia) H). lia.
 Qed.
 
 Lemma run_linv c l : forall s s', LInv s -> run c s l = Some s' -> LInv s'.
@@ -42,33 +69,35 @@ Qed.
 
 Definition finished (s : st) : Prop := pp s = PDone /\ cp s = CDone /\ fifo s = false.
 
-(* progress *)
-Theorem stream_progress c l s :
-  2 <= slots c -> 1 <= pipecap c ->
-  run c (init c) l = Some s -> fifo s = true \/ pp s <> PDone \/ cp s <> CDone ->
+(* progress of one pair, given that a task of the pair that waits for a slot can get one *)
+Lemma pair_progress c s :
+  LInvO s -> 1 <= pipecap c ->
+  (pp s = PWaitSlot \/ cp s = CWaitSlot -> tokens s < slots c) ->
+  fifo s = true \/ pp s <> PDone \/ cp s <> CDone ->
   exists a, step c s a <> None.
 Proof.
-  intros Hs Hc R Hun. pose proof (run_linv c l _ _ (init_linv c) R) as [I1 I2 I3 I4].
-  destruct (cp s) eqn:Q.
+  intros [I2 I3 I4] Hc Tok Hun.
+  assert (rd : cp s = CReading \/ cp s = CDraining -> exists a, step c s a <> None).
+  { intros Q. destruct (buf s) as [|b r] eqn:B.
+    - destruct (pp s) as [| |rest| | | |] eqn:P; try (destruct Q as [Q|Q]; rewrite Q in I2; simpl in I2; discriminate).
+      + destruct rest as [|x rest].
+        * exists PExit. simpl. rewrite P. discriminate.
+        * exists PWrite. simpl. rewrite P, B. simpl.
+          assert (T : 0 < pipecap c) by lia. apply Nat.ltb_lt in T. rewrite T. discriminate.
+      + exists CEof. simpl. destruct Q as [Q|Q]; rewrite Q, B, I3; simpl; discriminate.
+      + exists CEof. simpl. destruct Q as [Q|Q]; rewrite Q, B, I3; simpl; discriminate.
+      + exists CEof. simpl. destruct Q as [Q|Q]; rewrite Q, B, I3; simpl; discriminate.
+      + exists CEof. simpl. destruct Q as [Q|Q]; rewrite Q, B, I3; simpl; discriminate.
+    - exists CRead. simpl. destruct Q as [Q|Q]; rewrite Q, B; discriminate. }
+  assert (op : cp s = COpening \/ cp s = CSkipOpen -> exists a, step c s a <> None).
+  { intros Q. destruct (pp s) eqn:P; try (destruct Q as [Q|Q]; rewrite Q in I2; simpl in I2; discriminate).
+    - exists PAcquire. simpl. rewrite P.
+      assert (T : tokens s < slots c) by (apply Tok; auto). apply Nat.ltb_lt in T. rewrite T. discriminate.
+    - exists AOpenBoth. simpl. rewrite P. destruct Q as [Q|Q]; rewrite Q; discriminate. }
+  destruct (cp s) eqn:Q; auto.
   - (* CNone *) exists AForward. simpl. rewrite Q. discriminate.
   - (* CWaitSlot *) exists CAcquire. simpl. rewrite Q.
-    assert (T : tokens s < slots c) by (rewrite I1; simpl; destruct (pp s); simpl; lia).
-    apply Nat.ltb_lt in T. rewrite T. discriminate.
-  - (* COpening *) destruct (pp s) eqn:P; simpl in I2; try discriminate.
-    + exists PAcquire. simpl. rewrite P.
-      assert (T : tokens s < slots c) by (rewrite I1; simpl; lia). apply Nat.ltb_lt in T. rewrite T. discriminate.
-    + exists AOpenBoth. simpl. rewrite P, Q. discriminate.
-  - (* CReading *) destruct (buf s) as [|b r] eqn:B.
-    + destruct (pp s) as [| |rest| | | |] eqn:P; simpl in I2; try discriminate.
-      * destruct rest as [|x rest].
-        -- exists PExit. simpl. rewrite P. discriminate.
-        -- exists PWrite. simpl. rewrite P, B. simpl.
-           assert (T : 0 < pipecap c) by lia. apply Nat.ltb_lt in T. rewrite T. discriminate.
-      * exists CEof. simpl. rewrite Q, B, I3. simpl. discriminate.
-      * exists CEof. simpl. rewrite Q, B, I3. simpl. discriminate.
-      * exists CEof. simpl. rewrite Q, B, I3. simpl. discriminate.
-      * exists CEof. simpl. rewrite Q, B, I3. simpl. discriminate.
-    + exists CRead. simpl. rewrite Q, B. discriminate.
+    assert (T : tokens s < slots c) by (apply Tok; auto). apply Nat.ltb_lt in T. rewrite T. discriminate.
   - exists CAudit. simpl. rewrite Q. discriminate.
   - exists CFinalize. simpl. rewrite Q. discriminate.
   - exists CRelease. simpl. rewrite Q. discriminate.
@@ -82,11 +111,38 @@ Proof.
       exists ARemoveFifo. simpl. rewrite P, F. discriminate.
 Qed.
 
+(* a pair never holds more than its demand, and strictly less while one of its tasks waits for a slot *)
+Lemma held_le_demand c s : DInv c s -> held s <= demand c.
+Proof.
+  intros [_ [_ [_ [H4 _]]]]. unfold held, demand. destruct (skip c).
+  - destruct H4 as [_ K]. destruct (cp s); simpl in *; try discriminate; destruct (pp s); simpl; lia.
+  - destruct (cp s); destruct (pp s); simpl; lia.
+Qed.
+
+Lemma held_lt_demand c s : DInv c s -> pp s = PWaitSlot \/ cp s = CWaitSlot -> held s < demand c.
+Proof.
+  intros [_ [_ [_ [H4 _]]]] W. unfold held, demand. destruct (skip c).
+  - destruct H4 as [_ K]. destruct W as [W|W]; rewrite W in *; simpl in *; try discriminate.
+    destruct (cp s); simpl in *; try discriminate; lia.
+  - destruct W as [W|W]; rewrite W; simpl; [destruct (cp s)|destruct (pp s)]; simpl; lia.
+Qed.
+
+(* progress *)
+Theorem stream_progress c l s :
+  demand c <= slots c -> 1 <= pipecap c ->
+  run c (init c) l = Some s -> fifo s = true \/ pp s <> PDone \/ cp s <> CDone ->
+  exists a, step c s a <> None.
+Proof.
+  intros Hs Hc R Hun. pose proof (run_linv c l _ _ (init_linv c) R) as [T O].
+  pose proof (run_dinv c l _ _ (init_dinv c) R) as D.
+  apply pair_progress; auto. intros W. pose proof (held_lt_demand c s D W). lia.
+Qed.
+
 (* termination: a natural-number measure strictly decreases with every action *)
 Definition prank (p : ppc) : nat :=
   match p with PWaitSlot => 6 | POpening => 5 | PWriting _ => 4 | PExited => 3 | PAudited => 2 | PReleased => 1 | PDone => 0 end.
 Definition crank (q : cpc) : nat :=
-  match q with CNone => 8 | CWaitSlot => 7 | COpening => 6 | CReading => 5 | CExited => 4 | CAudited _ => 3 | CFinal => 2 | CReleased => 1 | CDone => 0 end.
+  match q with CNone => 8 | CWaitSlot => 7 | COpening => 6 | CSkipOpen => 6 | CReading => 5 | CDraining => 5 | CExited => 4 | CAudited _ => 3 | CFinal => 2 | CReleased => 1 | CDone => 0 end.
 Definition measure (c : cfg) (s : st) : nat :=
   2 * length (prest (pp s) c) + length (buf s) + prank (pp s) + crank (cp s) + (if fifo s then 1 else 0).
 
@@ -100,5 +156,6 @@ Proof.
            end;
     injection H as <-; unfold measure; simpl; rewrite ?P, ?Q; simpl; rewrite ?app_length; simpl;
     repeat match goal with E : buf s = _ |- _ => rewrite E; clear E end;
-    repeat match goal with E : fifo s = _ |- _ => rewrite E; clear E end; simpl; try lia.
+    repeat match goal with E : fifo s = _ |- _ => rewrite E; clear E end; simpl; try lia;
+    destruct (skip c); simpl; lia.
 Qed.
